@@ -266,6 +266,7 @@ func (c16) Gen(rng *rand.Rand, tier string, idx int) Case {
 			[]string{"salias", strconv.Itoa(rng.Intn(2))}, []string{"talias", strconv.Itoa(rng.Intn(3))},
 			[]string{"envelope", strconv.Itoa(rng.Intn(3) / 2)},
 			[]string{"where", strconv.Itoa(rng.Intn(3) / 2)}, []string{"swap", strconv.Itoa(rng.Intn(4) / 3)},
+			[]string{"nestkey", strconv.Itoa(rng.Intn(4) / 3)},
 			// pre 1: an earlier LEFT JOIN with MORE ON pairs on an empty second table precedes the
 			// modelled JOIN (identity on the observed columns; exercises per-JOIN key construction)
 			[]string{"pre", strconv.Itoa(rng.Intn(3) / 2)})
@@ -409,6 +410,9 @@ func c16JoinSQL(c Case, arity int, sel, tail string) string {
 	var on []string
 	for i := 0; i < arity; i++ {
 		l, r := fmt.Sprintf("%sk%d", sp, i), fmt.Sprintf("%st%d", tp, i)
+		if c04CfgVal(c, "nestkey", "0") == "1" { // the stream-side key columns live in a nested object: kk.k0, kk.k1, …
+			l = fmt.Sprintf("%skk.k%d", sp, i)
+		}
 		if swap {
 			l, r = r, l
 		}
@@ -470,6 +474,9 @@ func c16SQL(c Case, arity int) [][][]string {
 				// … and like the selected table columns: an unmatched LEFT JOIN row reads NULL, never the payload
 				row["pid"], row["grp"] = -5, 1
 			}
+			if c04CfgVal(c, "nestkey", "0") == "1" {
+				c16NestKeys(row, arity)
+			}
 			res, err := s.EmitSync(row)
 			switch {
 			case err != nil:
@@ -488,6 +495,48 @@ func c16SQL(c Case, arity int) [][][]string {
 		}
 	}
 	return out
+}
+
+// c16NestKeys moves the key columns k0… of a stream row into the nested object kk; the object is a typed Go map when
+// its values allow it (map[string]string / map[string]int / map[string]float64), a map[string]interface{} otherwise
+func c16NestKeys(row map[string]interface{}, arity int) {
+	inner := map[string]interface{}{}
+	for i := 0; i < arity; i++ {
+		k := "k" + strconv.Itoa(i)
+		if v, ok := row[k]; ok {
+			if s, isStr := row[k].(string); isStr && s == "junk" {
+				continue // envelope decoration named like a key column: stays where it is
+			}
+			inner[k] = v
+			delete(row, k)
+		}
+	}
+	kinds := map[string]bool{}
+	for _, v := range inner {
+		kinds[fmt.Sprintf("%T", v)] = true
+	}
+	switch {
+	case len(inner) > 0 && len(kinds) == 1 && kinds["string"]:
+		m := map[string]string{}
+		for k, v := range inner {
+			m[k] = v.(string)
+		}
+		row["kk"] = m
+	case len(inner) > 0 && len(kinds) == 1 && kinds["int"]:
+		m := map[string]int{}
+		for k, v := range inner {
+			m[k] = v.(int)
+		}
+		row["kk"] = m
+	case len(inner) > 0 && len(kinds) == 1 && kinds["float64"]:
+		m := map[string]float64{}
+		for k, v := range inner {
+			m[k] = v.(float64)
+		}
+		row["kk"] = &m
+	default:
+		row["kk"] = inner
+	}
 }
 
 func c16SQLAgg(c Case, arity int) [][][]string {
